@@ -373,6 +373,18 @@ func (c *Ctx) GuardOpt(rule string, fn *ssa.Function, eff Effect, opt GuardOpts,
 			}
 		}
 	}
+	mergedRets := false
+	if _, isRetNil := eff.(RetNil); isRetNil && len(effs) == 0 {
+		// no literal `return …, nil` (any more): the exits were merged into `return err`
+		for _, b := range fn.Blocks {
+			for _, in := range b.Instrs {
+				if (retMaybeNil{}).Match(in) {
+					effs = append(effs, in)
+				}
+			}
+		}
+		mergedRets = len(effs) > 0
+	}
 	if len(effs) == 0 {
 		// the effect may have been moved into a helper this function calls: the calls then stand for it
 		if sites, via := helperEffectSites(fn, eff); len(sites) > 0 {
@@ -408,6 +420,12 @@ func (c *Ctx) GuardOpt(rule string, fn *ssa.Function, eff Effect, opt GuardOpts,
 			}
 			if indexIn(b, e) < lim {
 				bad = append(bad, c.P.InstrPos(e))
+			}
+		}
+		if mergedRets && len(bad) > 0 {
+			// judge each merged return per path: it counts only where the returned error may be nil
+			if mb, ok := mergedSuccessReturns(c.P, fn, g, effs); ok {
+				bad = mb
 			}
 		}
 		construct := fname + "#" + eff.String() + "⇐" + gs
